@@ -229,7 +229,25 @@ func genStream(r *rand.Rand, l *gen.Layout, cs cfgSpec, valid bool) []req {
 	if !valid {
 		// the stream ends with one request that must never be answered with data (it may end the connection)
 		var q req
-		switch r.Intn(6) {
+		lastLen := uint32(l.Total() - int64(np-1)*int64(l.PieceLen))
+		switch r.Intn(9) {
+		case 6: // crosses the end of the (shorter) last piece but stays inside the nominal piece length
+			if lastLen > 1 {
+				q = req{uint32(np - 1), lastLen - 1, 2}
+			} else {
+				q = req{uint32(np - 1), lastLen, 1}
+			}
+		case 7:
+			q = req{uint32(np - 1), lastLen, 1}
+		case 8:
+			b := uint32(0)
+			if lastLen > 16000 {
+				b = lastLen - 16000
+			}
+			q = req{uint32(np - 1), b, 16384}
+			if int64(b)+16384 <= int64(lastLen) {
+				q = req{uint32(np - 1), lastLen - 1, 16384}
+			}
 		case 0:
 			q = req{uint32(np) + uint32(r.Intn(3)), 0, 16384}
 		case 1:
@@ -372,7 +390,7 @@ func session(k int) {
 					c.Send(refwire.Msg{ID: refwire.HaveNone})
 				}
 				time.Sleep(20 * time.Millisecond) // let the bitfield and allowed-fast grants arrive
-				stream := genStream(lr, l, cs, round != rounds-1 || lr.Intn(2) == 0)
+				stream := genStream(lr, l, cs, lr.Intn(10) < 3)
 				// a few requests while still choked (allowed-fast or not)
 				pre := lr.Intn(6)
 				for i := 0; i < pre && i < len(stream); i++ {
